@@ -425,3 +425,82 @@ def run(ctx, rep):
             rep.violation('R3.8', vkey('R3.8', CT.name, 'order', ''), CT.loc(CT.span),
                           'truncate releases the tail of the chain before the kept cluster has been marked end-of-chain: '
                           'a failure in between leaves the file linked to free (reusable) clusters')
+
+
+# ---------------------------------------------------------------------------------------------
+# R3.12  no link of the table is overwritten blindly: a cluster is appended after `prev` (alloc_cluster(Some(prev)) stores the
+#        new cluster number in prev's entry) only where prev's successor has been looked up in the FAT on the way
+
+def run_blind_link(ctx, rep):
+    facts = ctx.facts
+    n = 0
+    for fn in facts.fns.values():
+        if fn.crate != 'fatfs':
+            continue
+        sites = [(b, t) for b, t in fn.calls() if (t.get('callee') or '') == 'fatfs::fs::FileSystem::alloc_cluster' and len(t['args']) > 1]
+        for b, t in sites:
+            prev = t['args'][1]
+            pp = op_place(prev)
+            if pp is None:
+                continue
+            # where does `prev` come from?  the constant None (a new chain) needs no lookup
+            src = None
+            l = pp['l']
+            if pp['p']:
+                src = pp
+            else:
+                for bi in fn.reachable():
+                    for s in fn.blocks[bi]['stmts']:
+                        if s['k'] == 'assign' and not s['lhs']['p'] and s['lhs']['l'] == l:
+                            rv = s['rv']
+                            if rv['k'] == 'use' and op_place(rv['a']) is not None:
+                                src = op_place(rv['a'])
+                            elif rv['k'] == 'agg' and rv.get('variant') == 'None':
+                                src = 'none'
+                            else:
+                                src = src or 'other'
+            if src == 'none' or src is None:
+                continue
+            n += 1
+            # edges on which the remembered cluster is known to be None: switches over the discriminant of the same place
+            none_edges = set()
+            lookups = set()
+            for bi in fn.reachable():
+                tt = fn.blocks[bi]['term']
+                if tt['k'] == 'call' and (tt.get('callee') or '').endswith('Iterator::next') and tt['args']:
+                    ap = op_place(tt['args'][0])
+                    ty = fn.local_ty(ap['l']) if ap is not None else None
+                    for _ in range(3):
+                        if ty is not None and ty.get('k') in ('ref', 'ptr'):
+                            ty = fn.types[ty['to']]
+                    if ty is not None and (ty.get('path') or '').endswith('ClusterIterator'):
+                        lookups.add(bi)
+                if tt['k'] == 'call' and (tt.get('callee') or '').endswith('::get_next_cluster'):
+                    lookups.add(bi)
+                if tt['k'] != 'switch':
+                    continue
+                ss = switch_source(fn, bi)
+                if ss and ss.get('kind') == 'discr' and isinstance(src, dict) and \
+                        [e.get('n') for e in ss['place']['p'] if 'f' in e] == [e.get('n') for e in src['p'] if 'f' in e] and \
+                        [e.get('n') for e in src['p'] if 'f' in e]:
+                    for tgt in zero_targets(tt):
+                        none_edges.add((bi, tgt))
+            reach = fn.reach_from([0], cut_blocks=lookups, cut_edges=none_edges)
+            ok = b not in reach
+            rep.oblige('R3.12', '%s|bb%d' % (fn.name, b), ok=ok, nontrivial=True,
+                       sample={'fn': fn.name, 'at': fn.loc(t['span']), 'lookups': len(lookups), 'none_edges': len(none_edges)})
+            if not ok:
+                rep.violation('R3.12', vkey('R3.12', fn.name, 'blind-link', ''), fn.loc(t['span']),
+                              '%s can append a new cluster after the remembered one without having looked up that cluster\'s '
+                              'successor in the FAT on the way (`%s`): alloc_cluster overwrites the link, so a chain that continues '
+                              '- after a failed earlier write, or on a volume whose chain is longer than the recorded size - loses its '
+                              'tail (clusters that stay allocated and belong to no file)' % (fn.name, t['span']['snip'][:70]))
+    rep.counts['R3.12.sites'] = n
+
+
+_run_r3 = run
+
+
+def run(ctx, rep):
+    _run_r3(ctx, rep)
+    run_blind_link(ctx, rep)
